@@ -236,6 +236,9 @@ func (m *Machine) nondetIntrinsic(name string, args []Val) (Val, bool) {
 		// a harness that runs one long concrete computation raises the per-path instruction budget
 		m.maxSteps = m.cInt(args[0], name)
 		return nil, true
+	case "VerifFaultOpen":
+		m.faultOpen = m.cInt(args[0], name)
+		return nil, true
 	case "VerifStepBudget":
 		// from here on, running more than n further instructions is a "hang"
 		m.hangLimit = m.steps + m.cInt(args[0], name)
